@@ -1,11 +1,10 @@
 (* WireProofs.v — C05, second half, on the model: which port slots the links of a router occupy.
    Every link edge into a router sits in exactly one input slot of that router (and, by the port pairing,
    its mirror in exactly one output slot). *)
-From FV Require Import Base AddrRange Graph Desc Build Netlist Compile Routing Emit ModelBase BuildProofs ModelProofs IdProofs.
+From FV Require Import Base AddrRange Graph Desc Build Netlist Compile Routing Emit Hw Side ModelBase BuildProofs ModelProofs IdProofs.
 From Coq Require Import ZifyBool.
 
 (* ------------------------------------------------------------------ edges are unique per (source, destination) *)
-Definition epair (e : edge) : string * string := (e_src e, e_dst e).
 Definition edges_nodup (g : graph) : Prop := NoDup (map epair (g_edges g)).
 
 Lemma has_edge_false g u v : has_edge g u v = false -> ~ In (u, v) (map epair (g_edges g)).
@@ -183,3 +182,441 @@ Section RouterSlots.
     - eapply Hinj; eauto.
   Qed.
 End RouterSlots.
+
+(* ------------------------------------------------------------------ lists with one contributor *)
+Lemma flat_map_all_nil {A B} (f : A -> list B) L : (forall x, In x L -> f x = []) -> flat_map f L = [].
+Proof. induction L as [|a L IH]; intros H; [reflexivity|]. cbn. rewrite (H a (or_introl eq_refl)). cbn. apply IH. intros x Hx. apply H. right. exact Hx. Qed.
+
+Lemma flat_map_unique {A B} (f : A -> list B) L x0 y :
+  NoDup L -> In x0 L -> f x0 = [y] -> (forall x, In x L -> x <> x0 -> f x = []) -> flat_map f L = [y].
+Proof.
+  induction L as [|a L IH]; intros Hnd Hin Hf Hrest; [destruct Hin|]. inversion Hnd as [|? ? Ha Hnd']; subst. cbn.
+  destruct Hin as [->|Hin].
+  - rewrite Hf. cbn. f_equal. apply flat_map_all_nil. intros x Hx. apply Hrest; [right; exact Hx|].
+    intros ->. contradiction.
+  - rewrite (Hrest a (or_introl eq_refl)) by (intros ->; contradiction). cbn.
+    apply IH; auto. intros x Hx Hne. apply Hrest; [right; exact Hx|exact Hne].
+Qed.
+
+Lemma enumerate_from_nodup {A} (l : list A) : forall k, NoDup (enumerate_from k l).
+Proof.
+  induction l as [|x xs IH]; intros k; cbn; [constructor|]. constructor; [|apply IH].
+  intros Hin. apply enumerate_from_snd_lt in Hin. cbn in Hin. lia.
+Qed.
+
+(* ------------------------------------------------------------------ one driver and one reader per link signal *)
+From FV Require Import RouteMap Hw Check CheckProofs HwProofs.
+
+Lemma Forall2_paired_fwd l m k a : Forall2 paired l m -> nth_error l k = Some (Some a) -> nth_error m k = Some (Some (rev_link a)).
+Proof.
+  intros H. revert k. induction H as [|x y l m Hxy _ IH]; intros [|k] Hk; cbn in *; try discriminate.
+  - inversion Hk; subst. destruct y; cbn in Hxy; [subst; reflexivity|contradiction].
+  - apply IH. exact Hk.
+Qed.
+
+Section ModelWire.
+  Variables (d : desc) (g : graph) (c : compiled) (ri : rinfo) (n : netlist).
+  Variable nt : net.
+  Hypothesis Hnt : nt = Req \/ nt = Rsp.
+  Hypothesis Hb : build d = Ok g.
+  Hypothesis Hc : compile d g = Ok c.
+  Hypothesis He : emit c ri = Ok n.
+  (* side conditions on the description's graph, all decidable *)
+  (* signal names determine their links (fails only for node names that contain "_to_") *)
+  Hypothesis Hsep : forall l1 l2, is_link_of g l1 -> is_link_of g l2 -> flow nt l1 = flow nt l2 -> l1 = l2.
+  (* every interface has exactly one link in each direction *)
+  Hypothesis Hsingle : forall x e, In x (c_nis c) -> In e (g_edges g) -> is_link e = true ->
+    (e_src e = cn_name x -> epair e = cn_mgr_link x) /\ (e_dst e = cn_name x -> epair e = cn_sbr_link x).
+  (* links join interfaces and routers only *)
+  Hypothesis Htyped : forall u v, is_link_of g (u, v) ->
+    (is_router c u \/ exists x, In x (c_nis c) /\ cn_name x = u) /\ (is_router c v \/ exists x, In x (c_nis c) /\ cn_name x = v).
+
+  Let Hnd : NoDup (map cr_name (c_rts c)) := built_router_names_nodup d g c Hb Hc.
+  Let Hcd : c_desc c = d := proj1 (compile_desc d g c Hc).
+  Let Hcg : c_graph c = g := proj2 (compile_desc d g c Hc).
+
+  Lemma link_sym u v : is_link_of g (u, v) -> is_link_of g (v, u).
+  Proof.
+    intros (e & Hin & Hl & Hs & Hd'). cbn in Hs, Hd'. destruct (build_ginv d g Hb) as (Hsym & _).
+    destruct (Hsym e Hin Hl) as (e' & He' & M1 & M2 & M3 & _). exists e'. cbn. repeat split; auto; congruence.
+  Qed.
+
+  (* the router a compiled router record came from, and its incoming link edges *)
+  Lemma crt_origin r : In r (c_rts c) ->
+    exists rt rid, compile_router d g rt rid = Ok r /\ n_name rt = cr_name r.
+  Proof.
+    intros Hr. destruct (compile_inv _ _ _ Hc) as (dirs & nis & rts & rids & _ & Hrts & Hceq). rewrite Hceq in Hr. cbn in Hr.
+    destruct (mapM_In _ _ _ _ Hrts Hr) as (p & _ & Hq). cbv beta in Hq. exists (fst p), (snd p). split; [exact Hq|].
+    destruct (compile_router_in_ends _ _ _ _ _ Hq) as (-> & _). reflexivity.
+  Qed.
+
+  Lemma ins_nodup nm : NoDup (map epair (filter is_link (edges_to g nm))).
+  Proof.
+    apply NoDup_map_filter. unfold edges_to. apply NoDup_map_filter.
+    apply edges_view_nodup; [exact (build_edges_nodup d g Hb)|exact (build_nodup d g Hb)].
+  Qed.
+
+  Lemma link_in_ins u v : is_link_of g (u, v) -> exists e, In e (filter is_link (edges_to g v)) /\ epair e = (u, v).
+  Proof.
+    intros (e & Hin & Hl & Hs & Hd'). cbn in Hs, Hd'. exists e. split; [|unfold epair; congruence].
+    apply filter_In. split; [|exact Hl]. unfold edges_to. apply filter_In. split.
+    - apply (edges_view_In g e (proj2 (build_ginv d g Hb))). exact Hin.
+    - apply str_eqb_eq. exact Hd'.
+  Qed.
+
+  (* slot of a link at the router it enters / leaves *)
+  Lemma in_slot_of r u : In r (c_rts c) -> is_link_of g (u, cr_name r) ->
+    exists i, nth_error (cr_in r) i = Some (Some (u, cr_name r)) /\
+              forall j, nth_error (cr_in r) j = Some (Some (u, cr_name r)) -> j = i.
+  Proof.
+    intros Hr Hl. destruct (crt_origin r Hr) as (rt & rid & Hq & Hn).
+    destruct (link_in_ins _ _ Hl) as (e & He' & Hp). rewrite <- Hn in He'.
+    pose proof (in_complete d g rt rid r Hq e He') as Hin. rewrite Hp in Hin.
+    apply In_nth_error in Hin. destruct Hin as (i & Hi). exists i. split; [exact Hi|].
+    intros j Hj. eapply (in_unique d g rt rid r Hq (ins_nodup (n_name rt))); eauto.
+  Qed.
+
+  Lemma out_slot_of r v : In r (c_rts c) -> is_link_of g (cr_name r, v) ->
+    exists k, nth_error (cr_out r) k = Some (Some (cr_name r, v)) /\
+              forall j, nth_error (cr_out r) j = Some (Some (cr_name r, v)) -> j = k.
+  Proof.
+    intros Hr Hl. destruct (in_slot_of r v Hr (link_sym _ _ Hl)) as (k & Hk & Hu). exists k.
+    destruct (crt_facts d g c Hb Hc r Hr) as (Hp & _). split.
+    - apply (Forall2_paired_fwd _ _ _ _ Hp) in Hk. exact Hk.
+    - intros j Hj. apply Hu. destruct (crt_out_link d g c Hb Hc r j _ _ Hr Hj) as (_ & Hin & _). exact Hin.
+  Qed.
+
+  (* what the slots of the emitted instance carry, both directions *)
+  Lemma out_slot_bwd r x k sl s : In r (c_rts c) -> emit_rt (c_desc c) ri r = Ok x ->
+    nth_error (rt_outs nt x) k = Some sl -> In s sl ->
+    exists l, nth_error (cr_out r) k = Some (Some l) /\ sl = [flow nt l].
+  Proof.
+    intros Hr Hx Hk Hs. destruct (emitted_rt c ri n He Hnd r Hr) as (x' & Hx' & _ & _ & O1 & _ & O2 & _).
+    rewrite Hx in Hx'. inversion Hx'; subst x'. destruct (crt_facts d g c Hb Hc r Hr) as (Hp & _).
+    destruct Hnt as [-> | ->]; cbn [rt_outs] in Hk.
+    - rewrite O1 in Hk. unfold out_sig in Hk. rewrite nth_error_map in Hk.
+      destruct (nth_error (cr_out r) k) as [o|]; [|discriminate]. cbn in Hk. inversion Hk; subst sl.
+      destruct o as [l|]; [|destruct Hs]. exists l. auto.
+    - rewrite O2 in Hk. unfold out_sig in Hk. rewrite nth_error_map in Hk.
+      destruct (nth_error (cr_in r) k) as [o|] eqn:Eo; [|discriminate]. cbn in Hk. inversion Hk; subst sl.
+      destruct o as [l|]; [|destruct Hs]. exists (rev_link l). split; [apply (Forall2_paired_fwd _ _ _ _ Hp Eo)|].
+      destruct l; reflexivity.
+  Qed.
+
+  Lemma in_slot_fwd r x i l : In r (c_rts c) -> emit_rt (c_desc c) ri r = Ok x ->
+    nth_error (cr_in r) i = Some (Some l) -> nth_error (rt_ins nt x) i = Some [SSig (flow nt l)].
+  Proof.
+    intros Hr Hx Hi. destruct (emitted_rt c ri n He Hnd r Hr) as (x' & Hx' & _ & _ & _ & I1 & _ & I2).
+    rewrite Hx in Hx'. inversion Hx'; subst x'. destruct (crt_facts d g c Hb Hc r Hr) as (Hp & _).
+    destruct Hnt as [-> | ->]; cbn [rt_ins].
+    - rewrite I1. unfold in_src. rewrite nth_error_map, Hi. reflexivity.
+    - rewrite I2. unfold in_src. rewrite nth_error_map, (Forall2_paired_fwd _ _ _ _ Hp Hi). destruct l; reflexivity.
+  Qed.
+
+  Lemma rts_nodup : NoDup (n_rts n).
+  Proof.
+    destruct (emit_inv _ _ _ He) as (_ & axi & rts & _ & Hrts & Hn). rewrite Hn. cbn [n_rts].
+    assert (Hkeys : map r_name rts = map cr_name (c_rts c)).
+    { apply mapM_Forall2 in Hrts. clear -Hrts. induction Hrts as [|a b l l' Hab _ IH]; cbn; [reflexivity|].
+      rewrite IH. f_equal. unfold emit_rt in Hab. cbv zeta in Hab. inv_bind Hab. inversion Hab; subst. reflexivity. }
+    apply (NoDup_of_map r_name). rewrite Hkeys. exact Hnd.
+  Qed.
+
+  Lemma nis_nodup : NoDup (map cn_name (c_nis c)).
+  Proof.
+    destruct (compile_inv _ _ _ Hc) as (dirs & nis & rts & rids & Hn & _ & Hceq). rewrite Hceq. cbn.
+    assert (Hmap : forall l l', Forall2 (fun ni x => compile_ni d g ni = Ok x) l l' -> map cn_name l' = map n_name l).
+    { intros l l' HF. induction HF as [|a b l l' Hab _ IH]; cbn; [reflexivity|]. rewrite IH. f_equal.
+      apply (compile_ni_spec _ _ _ _ Hab). }
+    rewrite (Hmap _ _ (mapM_Forall2 _ _ _ Hn)). unfold nodes_of_type. apply NoDup_map_filter. exact (build_nodup d g Hb).
+  Qed.
+
+  Lemma rt_instance x : In x (n_rts n) -> exists r, In r (c_rts c) /\ emit_rt (c_desc c) ri r = Ok x /\ r_name x = cr_name r.
+  Proof.
+    intros Hx. destruct (emit_inv _ _ _ He) as (_ & axi & rts & _ & Hrts & Hn). rewrite Hn in Hx. cbn [n_rts] in Hx.
+    destruct (mapM_In _ _ _ _ Hrts Hx) as (r & Hr & Hq). exists r. split; [exact Hr|]. split; [exact Hq|].
+    destruct (emitted_rt c ri n He Hnd r Hr) as (x' & Hx' & _ & Hn' & _). rewrite Hq in Hx'. inversion Hx'; subst x'. exact Hn'.
+  Qed.
+
+  (* an output slot that carries the signal of link (u,v) is the slot of that link at router u *)
+  Lemma rt_slot_hit r x k sl u v : In r (c_rts c) -> emit_rt (c_desc c) ri r = Ok x -> is_link_of g (u, v) ->
+    nth_error (rt_outs nt x) k = Some sl -> existsb (str_eqb (flow nt (u, v))) sl = true ->
+    nth_error (cr_out r) k = Some (Some (u, v)) /\ sl = [flow nt (u, v)] /\ cr_name r = u.
+  Proof.
+    intros Hr Hx Hl Hk Hhit. apply existsb_exists in Hhit. destruct Hhit as (z & Hz & Hs). apply str_eqb_eq in Hs. subst z.
+    destruct (out_slot_bwd r x k sl _ Hr Hx Hk Hz) as ([a b] & Hout & ->).
+    destruct Hz as [Hz|[]]. destruct (crt_out_link d g c Hb Hc r k a b Hr Hout) as (Ha & _ & Hlab).
+    assert (E : (a, b) = (u, v)) by (apply Hsep; auto). injection E as Ea Eb. rewrite Ea, Eb in *.
+    split; [exact Hout|]. split; [reflexivity|congruence].
+  Qed.
+
+  Lemma in_slot_hit r x i sl u v : In r (c_rts c) -> emit_rt (c_desc c) ri r = Ok x -> is_link_of g (u, v) ->
+    nth_error (rt_ins nt x) i = Some sl -> existsb (src_is (flow nt (u, v))) sl = true ->
+    nth_error (cr_in r) i = Some (Some (u, v)) /\ sl = [SSig (flow nt (u, v))] /\ cr_name r = v.
+  Proof.
+    intros Hr Hx Hl Hi Hhit. apply existsb_exists in Hhit. destruct Hhit as (z & Hz & Hs). destruct z as [z|]; [|discriminate].
+    cbn in Hs. apply str_eqb_eq in Hs. subst z.
+    destruct (in_slot d g c ri n nt Hnt Hb Hc He r x i sl _ Hr Hx Hi Hz) as ([a b] & Hin & Hfl).
+    destruct (crt_facts d g c Hb Hc r Hr) as (_ & Hends & Hlinks).
+    pose proof (Hlinks (a, b) (nth_error_In _ _ Hin)) as Hlab. pose proof (Hends (a, b) (nth_error_In _ _ Hin)) as Hbn. cbn in Hbn.
+    assert (E : (u, v) = (a, b)) by (apply Hsep; auto). injection E as Ea Eb. rewrite <- Ea, <- Eb in *.
+    split; [exact Hin|]. split; [|congruence]. rewrite (in_slot_fwd r x i (u, v) Hr Hx Hin) in Hi. inversion Hi. reflexivity.
+  Qed.
+
+  Lemma nis_inst_nodup : NoDup (n_nis n).
+  Proof.
+    rewrite (emitted_nis c ri n He). apply (NoDup_of_map ni_name). rewrite map_map. cbn [emit_ni ni_name]. exact nis_nodup.
+  Qed.
+
+  Lemma ni_out_inst x : In x (c_nis c) -> ni_out nt (emit_ni (c_desc c) (ri_offset ri) x) = Some (flow nt (attach nt x)).
+  Proof. intros Hx. rewrite Hcd. apply (attach_link d g c ri nt Hnt Hb Hc x Hx). Qed.
+
+  (* what interface x reads on net nt *)
+  Definition attach_in (x : cni) : link := match nt with Rsp => rev_link (cn_mgr_link x) | _ => cn_sbr_link x end.
+  Lemma ni_in_inst x : In x (c_nis c) ->
+    ni_in nt (emit_ni (c_desc c) (ri_offset ri) x) = Some (flow nt (attach_in x)) /\
+    snd (attach_in x) = cn_name x /\ is_link_of g (attach_in x).
+  Proof.
+    intros Hx. destruct (compile_ni_links d g c Hc x Hx) as (M1 & M2 & S1 & S2). unfold attach_in.
+    destruct Hnt as [-> | ->]; cbn [ni_in emit_ni ni_req_i ni_rsp_i].
+    - split; [reflexivity|]. split; [exact S1|exact S2].
+    - split; [destruct (cn_mgr_link x); reflexivity|]. split; [destruct (cn_mgr_link x); exact M1|].
+      destruct (cn_mgr_link x) as [a b]. apply link_sym. exact M2.
+  Qed.
+
+  (* the attachment of an interface is the link that touches it *)
+  Lemma attach_of_link x u v : In x (c_nis c) -> is_link_of g (u, v) -> cn_name x = u -> attach nt x = (u, v).
+  Proof.
+    intros Hx Hl Hu. unfold attach. destruct Hnt as [-> | ->].
+    - destruct Hl as (e & Hin & Hle & Hs & Hd'). cbn in Hs, Hd'.
+      destruct (Hsingle x e Hx Hin Hle) as (H1 & _). rewrite <- (H1 ltac:(congruence)). unfold epair. congruence.
+    - destruct (link_sym _ _ Hl) as (e & Hin & Hle & Hs & Hd'). cbn in Hs, Hd'.
+      destruct (Hsingle x e Hx Hin Hle) as (_ & H2). rewrite <- (H2 ltac:(congruence)). unfold epair, rev_link. cbn. congruence.
+  Qed.
+  Lemma attach_in_of_link x u v : In x (c_nis c) -> is_link_of g (u, v) -> cn_name x = v -> attach_in x = (u, v).
+  Proof.
+    intros Hx Hl Hv. unfold attach_in. destruct Hnt as [-> | ->].
+    - destruct Hl as (e & Hin & Hle & Hs & Hd'). cbn in Hs, Hd'.
+      destruct (Hsingle x e Hx Hin Hle) as (_ & H2). rewrite <- (H2 ltac:(congruence)). unfold epair. congruence.
+    - destruct (link_sym _ _ Hl) as (e & Hin & Hle & Hs & Hd'). cbn in Hs, Hd'.
+      destruct (Hsingle x e Hx Hin Hle) as (H1 & _). rewrite <- (H1 ltac:(congruence)). unfold epair, rev_link. cbn. congruence.
+  Qed.
+
+  Theorem drivers_single u v : is_link_of g (u, v) ->
+    exists dd, drivers n nt (flow nt (u, v)) = [dd] /\ uref_name dd = u.
+  Proof.
+    intros Hl. set (s := flow nt (u, v)). unfold drivers.
+    destruct (proj1 (Htyped u v Hl)) as [(r & Hr & Hru)|(xu & Hxu & Hxn)].
+    - (* u is a router *)
+      destruct (emitted_rt c ri n He Hnd r Hr) as (x & Hx & Hfind & Hname & _).
+      assert (Hxin : In x (n_rts n)) by (apply find_some in Hfind; tauto).
+      rewrite <- Hru in Hl. destruct (out_slot_of r v Hr Hl) as (k0 & Hk0 & Huniq). rewrite Hru in Hl, Hk0, Huniq.
+      exists (URt (r_name x) k0). split; [|cbn; congruence].
+      rewrite (flat_map_all_nil _ (n_nis n)).
+      + cbn [app]. apply (flat_map_unique _ (n_rts n) x); [exact rts_nodup|exact Hxin| |].
+        * unfold slot_refs.
+          apply (flat_map_unique _ (enumerate (rt_outs nt x)) (k0, [s])); [apply enumerate_from_nodup| | |].
+          -- apply enumerate_nth. apply (out_slot d g c ri n nt Hnt Hb Hc He r x k0 (u, v) Hr Hx Hk0).
+          -- cbn [fst snd existsb]. rewrite (proj2 (str_eqb_eq s s) eq_refl). reflexivity.
+          -- intros [k sl] Hin Hne. cbn [fst snd]. destruct (existsb (str_eqb s) sl) eqn:Eh; [|reflexivity].
+             exfalso. apply enumerate_nth in Hin. destruct (rt_slot_hit r x k sl u v Hr Hx Hl Hin Eh) as (Hk & -> & _).
+             apply Hne. rewrite (Huniq k Hk). reflexivity.
+        * intros x' Hx' Hne. unfold slot_refs. apply flat_map_all_nil. intros [k sl] Hin. cbn [fst snd].
+          destruct (existsb (str_eqb s) sl) eqn:Eh; [|reflexivity]. exfalso. apply enumerate_nth in Hin.
+          destruct (rt_instance x' Hx') as (r' & Hr' & Hq' & _).
+          destruct (rt_slot_hit r' x' k sl u v Hr' Hq' Hl Hin Eh) as (_ & _ & Hn').
+          assert (r' = r) by (eapply NoDup_map_eq; [exact Hnd|exact Hr'|exact Hr|congruence]). subst r'.
+          apply Hne. congruence.
+      + intros y Hy. rewrite (emitted_nis c ri n He) in Hy. apply in_map_iff in Hy. destruct Hy as (x' & <- & Hx').
+        rewrite (ni_out_inst x' Hx'). unfold opt_is. destruct (str_eqb s (flow nt (attach nt x'))) eqn:Eh; [|reflexivity].
+        exfalso. apply str_eqb_eq in Eh. destruct (attach_link d g c ri nt Hnt Hb Hc x' Hx') as (Hf & Hla & _).
+        assert (E : (u, v) = attach nt x') by (apply Hsep; auto). rewrite <- E in Hf. cbn in Hf.
+        apply (ni_rt_disjoint d g c Hb Hc x' r Hx' Hr). congruence.
+    - (* u is an interface *)
+      exists (UNi (cn_name xu)). split; [|exact Hxn].
+      rewrite (flat_map_all_nil _ (n_rts n)).
+      + rewrite app_nil_r. apply (flat_map_unique _ (n_nis n) (emit_ni (c_desc c) (ri_offset ri) xu)); [exact nis_inst_nodup| | |].
+        * rewrite (emitted_nis c ri n He). apply in_map. exact Hxu.
+        * rewrite (ni_out_inst xu Hxu), (attach_of_link xu u v Hxu Hl Hxn). unfold opt_is. fold s.
+          rewrite (proj2 (str_eqb_eq s s) eq_refl). reflexivity.
+        * intros y Hy Hne. rewrite (emitted_nis c ri n He) in Hy. apply in_map_iff in Hy. destruct Hy as (x' & <- & Hx').
+          rewrite (ni_out_inst x' Hx'). unfold opt_is. destruct (str_eqb s (flow nt (attach nt x'))) eqn:Eh; [|reflexivity].
+          exfalso. apply str_eqb_eq in Eh. destruct (attach_link d g c ri nt Hnt Hb Hc x' Hx') as (Hf & Hla & _).
+          assert (E : (u, v) = attach nt x') by (apply Hsep; auto). rewrite <- E in Hf. cbn in Hf.
+          assert (x' = xu) by (eapply NoDup_map_eq; [exact nis_nodup|exact Hx'|exact Hxu|congruence]). subst x'. apply Hne. reflexivity.
+      + intros x' Hx'. unfold slot_refs. apply flat_map_all_nil. intros [k sl] Hin. cbn [fst snd].
+        destruct (existsb (str_eqb s) sl) eqn:Eh; [|reflexivity]. exfalso. apply enumerate_nth in Hin.
+        destruct (rt_instance x' Hx') as (r' & Hr' & Hq' & _).
+        destruct (rt_slot_hit r' x' k sl u v Hr' Hq' Hl Hin Eh) as (_ & _ & Hn').
+        apply (ni_rt_disjoint d g c Hb Hc xu r' Hxu Hr'). congruence.
+  Qed.
+
+  Theorem readers_single u v : is_link_of g (u, v) ->
+    exists rr, readers n nt (flow nt (u, v)) = [rr] /\ uref_name rr = v.
+  Proof.
+    intros Hl. set (s := flow nt (u, v)). unfold readers.
+    destruct (proj2 (Htyped u v Hl)) as [(r & Hr & Hrv)|(xv & Hxv & Hxn)].
+    - (* v is a router *)
+      destruct (emitted_rt c ri n He Hnd r Hr) as (x & Hx & Hfind & Hname & _).
+      assert (Hxin : In x (n_rts n)) by (apply find_some in Hfind; tauto).
+      rewrite <- Hrv in Hl. destruct (in_slot_of r u Hr Hl) as (i0 & Hi0 & Huniq). rewrite Hrv in Hl, Hi0, Huniq.
+      exists (URt (r_name x) i0). split; [|cbn; congruence].
+      rewrite (flat_map_all_nil _ (n_nis n)).
+      + cbn [app]. apply (flat_map_unique _ (n_rts n) x); [exact rts_nodup|exact Hxin| |].
+        * unfold slot_refs.
+          apply (flat_map_unique _ (enumerate (rt_ins nt x)) (i0, [SSig s])); [apply enumerate_from_nodup| | |].
+          -- apply enumerate_nth. apply (in_slot_fwd r x i0 (u, v) Hr Hx Hi0).
+          -- cbn [fst snd existsb src_is]. rewrite (proj2 (str_eqb_eq s s) eq_refl). reflexivity.
+          -- intros [k sl] Hin Hne. cbn [fst snd]. destruct (existsb (src_is s) sl) eqn:Eh; [|reflexivity].
+             exfalso. apply enumerate_nth in Hin. destruct (in_slot_hit r x k sl u v Hr Hx Hl Hin Eh) as (Hk & -> & _).
+             apply Hne. rewrite (Huniq k Hk). reflexivity.
+        * intros x' Hx' Hne. unfold slot_refs. apply flat_map_all_nil. intros [k sl] Hin. cbn [fst snd].
+          destruct (existsb (src_is s) sl) eqn:Eh; [|reflexivity]. exfalso. apply enumerate_nth in Hin.
+          destruct (rt_instance x' Hx') as (r' & Hr' & Hq' & _).
+          destruct (in_slot_hit r' x' k sl u v Hr' Hq' Hl Hin Eh) as (_ & _ & Hn').
+          assert (r' = r) by (eapply NoDup_map_eq; [exact Hnd|exact Hr'|exact Hr|congruence]). subst r'.
+          apply Hne. congruence.
+      + intros y Hy. rewrite (emitted_nis c ri n He) in Hy. apply in_map_iff in Hy. destruct Hy as (x' & <- & Hx').
+        destruct (ni_in_inst x' Hx') as (Hni & Hsn & Hla). rewrite Hni. unfold opt_is.
+        destruct (str_eqb s (flow nt (attach_in x'))) eqn:Eh; [|reflexivity].
+        exfalso. apply str_eqb_eq in Eh.
+        assert (E : (u, v) = attach_in x') by (apply Hsep; auto). rewrite <- E in Hsn. cbn in Hsn.
+        apply (ni_rt_disjoint d g c Hb Hc x' r Hx' Hr). congruence.
+    - (* v is an interface *)
+      exists (UNi (cn_name xv)). split; [|exact Hxn].
+      rewrite (flat_map_all_nil _ (n_rts n)).
+      + rewrite app_nil_r. apply (flat_map_unique _ (n_nis n) (emit_ni (c_desc c) (ri_offset ri) xv)); [exact nis_inst_nodup| | |].
+        * rewrite (emitted_nis c ri n He). apply in_map. exact Hxv.
+        * destruct (ni_in_inst xv Hxv) as (Hni & _ & _). rewrite Hni, (attach_in_of_link xv u v Hxv Hl Hxn). unfold opt_is. fold s.
+          rewrite (proj2 (str_eqb_eq s s) eq_refl). reflexivity.
+        * intros y Hy Hne. rewrite (emitted_nis c ri n He) in Hy. apply in_map_iff in Hy. destruct Hy as (x' & <- & Hx').
+          destruct (ni_in_inst x' Hx') as (Hni & Hsn & Hla). rewrite Hni. unfold opt_is.
+          destruct (str_eqb s (flow nt (attach_in x'))) eqn:Eh; [|reflexivity].
+          exfalso. apply str_eqb_eq in Eh.
+          assert (E : (u, v) = attach_in x') by (apply Hsep; auto). rewrite <- E in Hsn. cbn in Hsn.
+          assert (x' = xv) by (eapply NoDup_map_eq; [exact nis_nodup|exact Hx'|exact Hxv|congruence]). subst x'. apply Hne. reflexivity.
+      + intros x' Hx'. unfold slot_refs. apply flat_map_all_nil. intros [k sl] Hin. cbn [fst snd].
+        destruct (existsb (src_is s) sl) eqn:Eh; [|reflexivity]. exfalso. apply enumerate_nth in Hin.
+        destruct (rt_instance x' Hx') as (r' & Hr' & Hq' & _).
+        destruct (in_slot_hit r' x' k sl u v Hr' Hq' Hl Hin Eh) as (_ & _ & Hn').
+        apply (ni_rt_disjoint d g c Hb Hc xv r' Hxv Hr'). congruence.
+  Qed.
+
+  (* C05, second half, for the request / response signals: every declared signal of net nt has exactly one
+     driver and one reader, and its name is <driver>_to_<reader>_<net> *)
+  Theorem model_signal_ok : forall l, In l (n_links n) -> fst l = net_type nt -> signal_ok n l.
+  Proof.
+    intros [ty sname] Hin Hty. cbn in Hty. subst ty.
+    destruct (emit_inv _ _ _ He) as (_ & axi & rts & _ & _ & Hn). rewrite Hn in Hin. cbn [n_links] in Hin.
+    unfold emit_links in Hin. apply in_flat_map in Hin. destruct Hin as (e & Hein & Hl).
+    apply filter_In in Hein. destruct Hein as (Hev & Hle). rewrite Hcg in Hev. apply edges_view_sub in Hev.
+    assert (Hlk : is_link_of g (e_src e, e_dst e)) by (exists e; cbn; auto).
+    (* which of the declarations of this edge it is *)
+    assert (Hcase : exists u v, is_link_of g (u, v) /\ sname = flow nt (u, v)).
+    { cbn in Hl. destruct Hnt as [-> | ->]; cbn [net_type] in Hl.
+      - destruct Hl as [Hl|[Hl|Hl]]; [inversion Hl; exists (e_src e), (e_dst e); auto|inversion Hl|].
+        destruct (d_nw (c_desc c)); [destruct Hl as [Hl|[]]; inversion Hl|destruct Hl].
+      - destruct Hl as [Hl|[Hl|Hl]]; [inversion Hl| |].
+        + inversion Hl. exists (e_dst e), (e_src e). split; [apply link_sym; exact Hlk|reflexivity].
+        + destruct (d_nw (c_desc c)); [destruct Hl as [Hl|[]]; inversion Hl|destruct Hl]. }
+    destruct Hcase as (u & v & Huv & ->).
+    destruct (drivers_single u v Huv) as (dd & Hd & Hdn). destruct (readers_single u v Huv) as (rr & Hr & Hrn).
+    exists nt, dd, rr. cbn [fst snd]. split; [destruct Hnt as [-> | ->]; reflexivity|]. split; [exact Hd|]. split; [exact Hr|].
+    rewrite Hdn, Hrn. reflexivity.
+  Qed.
+End ModelWire.
+
+(* ------------------------------------------------------------------ the hardware-level theorems without the wiring check *)
+From FV Require Import RefOracle.
+
+Definition names_sep (g : graph) (nt : net) : Prop :=
+  forall l1 l2, is_link_of g l1 -> is_link_of g l2 -> flow nt l1 = flow nt l2 -> l1 = l2.
+Definition single_attach (g : graph) (c : compiled) : Prop :=
+  forall x e, In x (c_nis c) -> In e (g_edges g) -> is_link e = true ->
+    (e_src e = cn_name x -> epair e = cn_mgr_link x) /\ (e_dst e = cn_name x -> epair e = cn_sbr_link x).
+Definition links_typed (g : graph) (c : compiled) : Prop :=
+  forall u v, is_link_of g (u, v) ->
+    (is_router c u \/ exists x, In x (c_nis c) /\ cn_name x = u) /\ (is_router c v \/ exists x, In x (c_nis c) /\ cn_name x = v).
+
+Theorem hw_send_model (d : desc) (g : graph) (c : compiled) (ri : rinfo) (n : netlist) (t : cni) (id : Z) (nt : net) :
+  nt = Req \/ nt = Rsp ->
+  build d = Ok g -> compile d g = Ok c -> gen_routing_info sp_reference c = Ok ri -> emit c ri = Ok n ->
+  d_algo d = ID -> In t (c_nis c) -> id_num (cn_id t) = Ok id ->
+  (forall u p, is_router c u -> sp_reference g u (cn_name t) = Some p -> forall x, In x (removelast p) -> is_router c x) ->
+  names_sep g nt -> single_attach g c -> links_typed g c ->
+  (forall r, In r (c_rts c) -> Z.of_nat (length (cr_out r)) <= 2 ^ 32) ->
+  forall s0 r0 p, In s0 (c_nis c) -> cn_name s0 <> cn_name t -> snd (attach nt s0) = r0 -> is_router c r0 ->
+    sp_reference g r0 (cn_name t) = Some p ->
+    let tr := send n nt (emit_ni d (ri_offset ri) s0) (HId id) in
+    t_out tr = Delivered (cn_name t) (HId id) /\ S (length (t_rts tr)) = length p.
+Proof.
+  intros Hnt Hb Hc Hri He Ha Ht Hid Htr Hsep Hsingle Htyped Hdeg s0 r0 p.
+  apply (hw_send sp_reference d g c ri n t id nt Hnt Hb Hc Hri He Ha Ht Hid
+           (fun s p H => sp_ref_path g (cn_name t) s p H)
+           (fun s p q H Hq => sp_ref_min g (cn_name t) s p q H Hq)
+           (bound g)
+           (fun s p H => sp_ref_bound g (cn_name t) s p H)
+           (fun s q Hq Hl => sp_ref_complete g (cn_name t) s q Hq Hl) Htr
+           (model_signal_ok d g c ri n nt Hnt Hb Hc He Hsep Hsingle Htyped) Hdeg).
+Qed.
+
+Theorem hw_src_send_model (d : desc) (g : graph) (c : compiled) (ri : rinfo) (n : netlist) (t : cni) (nt : net) :
+  nt = Req \/ nt = Rsp ->
+  build d = Ok g -> compile d g = Ok c -> gen_routing_info sp_reference c = Ok ri -> emit c ri = Ok n ->
+  d_algo d = SRC -> In t (c_nis c) ->
+  names_sep g nt -> single_attach g c -> links_typed g c ->
+  forall s0 id ps p, In s0 (c_nis c) -> gen_route sp_reference c s0 t = Ok (id, Some ps) ->
+    sp_reference g (cn_name s0) (cn_name t) = Some p -> snd (attach nt s0) = hd "" (tl p) ->
+    let tr := send n nt (emit_ni d (ri_offset ri) s0) (hdr_of_word n (word_value ps)) in
+    t_out tr = Delivered (cn_name t) (HRoute 0) /\ length (t_rts tr) = length ps /\ (2 + length ps = length p)%nat.
+Proof.
+  intros Hnt Hb Hc Hri He Ha Ht Hsep Hsingle Htyped s0 id ps p Hs0 Hgr Hsp Hatt.
+  assert (Hcd : c_desc c = d) by apply (compile_desc d g c Hc).
+  rewrite (hdr_of_word_fits sp_reference c ri n s0 t id ps ltac:(rewrite Hcd; exact Ha) Hri He Hs0 Ht Hgr).
+  apply (hw_src_send sp_reference d g c ri n t nt Hnt Hb Hc He Ht
+           (model_signal_ok d g c ri n nt Hnt Hb Hc He Hsep Hsingle Htyped) s0 id ps p Hs0 Hgr Hsp); [|exact Hatt].
+  split; [exact (sp_ref_path g (cn_name t) _ _ Hsp)|]. intros q Hq. exact (sp_ref_min g (cn_name t) _ _ q Hsp Hq).
+Qed.
+
+(* ------------------------------------------------------------------ decidable forms of the side conditions *)
+Lemma pair_eqb_eq a b : pair_eqb a b = true -> a = b.
+Proof. destruct a, b. unfold pair_eqb. cbn. intros H. apply andb_true_iff in H. destruct H as (H1 & H2).
+  apply str_eqb_eq in H1. apply str_eqb_eq in H2. congruence. Qed.
+
+Lemma is_link_of_edge g l : is_link_of g l -> exists e, In e (link_edges g) /\ epair e = l.
+Proof. intros (e & Hin & Hl & Hs & Hd). exists e. split; [apply filter_In; auto|]. destruct l. unfold epair. cbn in *. congruence. Qed.
+Lemma names_sepb_ok g nt : names_sepb g nt = true -> names_sep g nt.
+Proof.
+  unfold names_sepb, names_sep. intros H l1 l2 H1 H2 Hf. rewrite forallb_forall in H.
+  destruct (is_link_of_edge g l1 H1) as (e1 & He1 & <-). destruct (is_link_of_edge g l2 H2) as (e2 & He2 & <-).
+  specialize (H e1 He1). rewrite forallb_forall in H. specialize (H e2 He2).
+  apply orb_true_iff in H. destruct H as [H|H]; [|apply pair_eqb_eq; exact H].
+  apply negb_true_iff in H. rewrite Hf in H. rewrite (proj2 (str_eqb_eq _ _) eq_refl) in H. discriminate.
+Qed.
+
+Lemma single_attachb_ok g c : single_attachb g c = true -> single_attach g c.
+Proof.
+  unfold single_attachb, single_attach. intros H x e Hx He Hl. rewrite forallb_forall in H. specialize (H x Hx).
+  rewrite forallb_forall in H. specialize (H e ltac:(apply filter_In; auto)). apply andb_true_iff in H. destruct H as (H1 & H2).
+  split; intros Heq.
+  - apply orb_true_iff in H1. destruct H1 as [H1|H1]; [|apply pair_eqb_eq; exact H1].
+    apply negb_true_iff in H1. rewrite Heq, (proj2 (str_eqb_eq _ _) eq_refl) in H1. discriminate.
+  - apply orb_true_iff in H2. destruct H2 as [H2|H2]; [|apply pair_eqb_eq; exact H2].
+    apply negb_true_iff in H2. rewrite Heq, (proj2 (str_eqb_eq _ _) eq_refl) in H2. discriminate.
+Qed.
+
+Lemma is_unitb_ok c u : is_unitb c u = true -> is_router c u \/ exists x, In x (c_nis c) /\ cn_name x = u.
+Proof.
+  unfold is_unitb, is_rtb. intros H. apply orb_true_iff in H. destruct H as [H|H]; apply existsb_exists in H; destruct H as (y & Hy & Hn); apply str_eqb_eq in Hn.
+  - left. exists y. auto.
+  - right. exists y. auto.
+Qed.
+Lemma links_typedb_ok g c : links_typedb g c = true -> links_typed g c.
+Proof.
+  unfold links_typedb, links_typed. intros H u v Hl. rewrite forallb_forall in H.
+  destruct (is_link_of_edge g (u, v) Hl) as (e & He & Hp). specialize (H e He). apply andb_true_iff in H. destruct H as (H1 & H2).
+  unfold epair in Hp. inversion Hp; subst. split; apply is_unitb_ok; assumption.
+Qed.
+
+Lemma degrees_fitb_ok c : degrees_fitb c = true -> forall r, In r (c_rts c) -> Z.of_nat (length (cr_out r)) <= 2 ^ 32.
+Proof. unfold degrees_fitb. intros H r Hr. rewrite forallb_forall in H. specialize (H r Hr). lia. Qed.
